@@ -492,6 +492,24 @@ fn ff_events<const P: u128>(name: &str, rng: &mut Rng, out: &mut Out, exhaustive
             let r = |rng: &mut Rng| (((rng.next() as u128) << 64) | rng.next() as u128) % P;
             pairs.push((r(rng), r(rng)));
         }
+        // operands of mixed magnitude: residues of every bit length (a fast path chosen by operand size, a
+        // partial product that just reaches 2^64 / 2^96 / 2^128 ... only shows for particular length pairs)
+        let sized = |rng: &mut Rng, bits: u32| -> u128 {
+            let raw = ((rng.next() as u128) << 64) | rng.next() as u128;
+            let v = if bits >= 128 { raw } else { (raw & ((1u128 << bits) - 1)) | (1u128 << (bits - 1)) };
+            v % P
+        };
+        for _ in 0..n_random {
+            let (ba, bb) = (rng.range(1, 127) as u32, rng.range(1, 127) as u32);
+            pairs.push((sized(rng, ba), sized(rng, bb)));
+        }
+        let pbits = 128 - P.leading_zeros();
+        for ba in [1u32, 2, 31, 32, 33, 34, 63, 64, 65, pbits.saturating_sub(1).max(1), pbits] {
+            for bb in [1u32, 32, 33, 64, 65, pbits.saturating_sub(1).max(1), pbits] {
+                pairs.push((sized(rng, ba), sized(rng, bb)));
+                pairs.push((sized(rng, 129 - ba.min(128)), sized(rng, ba)));
+            }
+        }
     }
     for (a, b) in pairs {
         let (x, y) = (FiniteField::<P>::new(a), FiniteField::<P>::new(b));
